@@ -243,7 +243,8 @@ def step_clauses():
         fns.append(f'/// DW_OP_WASM_location {sub}\nspec fn step_WASM_location_{sub}{GEN} {{\n    let b0 = a.pc.rv();\n    '
                    f'b0.at(0) == constants::DW_OP_WASM_location.0 && b0.at(1) == {sub} ==> ({{ let total = 2 + {size}; {LETS}\n    {eff} }})\n}}')
         out.append(f'[C07:step-WASM_location-{sub}] res matches Ok(r) ==> step_WASM_location_{sub}(*old(self), *final(self), r)')
-    out.append('[C07:step-wf] res is Ok ==> wf(*final(self))')
+    out.append('[C07:step-wf] wf(*final(self))')
+    out.append('[C07:step-request-matches-continuation] res matches Ok(OperationEvaluationResult::Waiting(w, q)) ==> request_matches(w, q)')
     out.append('[C01:frame] within(old(self).pc.rv(), final(self).pc.rv()) || inside(old(self).bytecode.rv(), final(self).pc.rv())')
     out.append('[C07:step-config-frame] frame_misc(*old(self), *final(self))')
     return out, '\n\n'.join(fns)
@@ -331,12 +332,17 @@ def populate(ctx, sk, stage=9):
     sk.add('read::op', oi)
 
     ev = opsrc.item(r'^impl<R: Reader, S: EvaluationStorage<R>> Evaluation<R, S> \{', label='Evaluation')
-    ev.keep_only(['pop', 'push', 'evaluate_one_operation'])
+    ev.drop([])
     # R-CLOSURE-ENS: an un-annotated closure has no specification in Verus; the error constructor closures get the
     # (verified) annotation `ensures e == <their body>` so that "StackFull exactly when full" can be stated
     ev.custom('R-CLOSURE-ENS', '.map_err(|_| Error::StackFull)', '.map_err(|_verif_unused| -> (e: Error) ensures e == Error::StackFull { Error::StackFull })', count=-1)
+    ev.custom('R-CLONE', 'let pc = bytecode.clone();', 'let pc = reader_clone(&bytecode);')
     ev.custom('R-CLONE', 'data.clone()', 'reader_clone(data)')
     ev.custom('R-CLONE', 'expression.clone()', 'reader_clone(expression)')
+    ev.custom('R-CLONE', 'Value::parse(base_type, value.clone())?', 'Value::parse(base_type, reader_clone(value))?')
+    ev.custom('R-CLONE', 'let mut pc = bytes.clone();', 'let mut pc = reader_clone(&bytes);')
+    # `panic!()` without a message (evaluate() called while waiting): same rule as R-ASSERT's panic!("..")
+    ev.custom('R-ASSERT', 'EvaluationState::Waiting(_) => panic!(),', 'EvaluationState::Waiting(_) => crate::verif_unreachable(),')
     ev.clean()
     ev.own(OWN)
     ev.splice('pop', ret='res', ensures=[
@@ -352,6 +358,116 @@ def populate(ctx, sk, stage=9):
     step_ens, step_fns = step_clauses()
     ev.splice('evaluate_one_operation', ret='res', requires=['[C07:machine-wf] wf(*old(self))'], ensures=step_ens, canary=True,
               before=[('self.push(Value::Generic(value as u64))?;', 'proof { assert(value >= 0 ==> (value as u64) as int == value as int) by (bit_vector); assert(value < 0 ==> (value as u64) as int == value as int + 0x1_0000_0000_0000_0000) by (bit_vector); }')])
+    # ---- 4. state machine
+    ev.insert_members("""    // ghost accessors (contracts of pub fns may not name private fields)
+    pub closed spec fn sp_phase(&self) -> Phase { phase_of(self.state) }
+    pub closed spec fn sp_stack(&self) -> Seq<Value> { self.stack@ }
+    pub closed spec fn sp_result(&self) -> Seq<Piece<R>> { self.result@ }
+    pub closed spec fn sp_value_result(&self) -> Option<Value> { self.value_result }
+    pub closed spec fn sp_iteration(&self) -> u32 { self.iteration }
+    pub closed spec fn sp_max_iterations(&self) -> Option<u32> { self.max_iterations }
+    pub closed spec fn sp_object_address(&self) -> Option<u64> { self.object_address }
+    pub closed spec fn sp_addr_mask(&self) -> u64 { self.addr_mask }
+    pub closed spec fn sp_encoding(&self) -> Encoding { self.encoding }
+    pub closed spec fn sp_pc(&self) -> RView { self.pc.rv() }
+    pub closed spec fn sp_bytecode(&self) -> RView { self.bytecode.rv() }
+    pub closed spec fn sp_calls(&self) -> Seq<(R, R)> { self.expression_stack@ }
+    pub closed spec fn sp_wf(&self) -> bool { wf(*self) }
+    pub closed spec fn sp_waiting_for(&self, r: EvaluationResult<R>) -> bool { self.state matches EvaluationState::Waiting(w) && request_matches(w, r) }
+    pub closed spec fn sp_only_state_changed(&self, o: &Self) -> bool { only_state_changed(*o, *self) }
+    pub closed spec fn sp_same_phase(&self, o: &Self) -> bool { self.state == o.state }
+    pub closed spec fn sp_config_same(&self, o: &Self) -> bool { config_same(*self, *o) }
+    pub closed spec fn sp_stack_cap(&self) -> nat { stack_cap(*self) }""")
+    ev.splice('new_in', ret='res', requires=['[C07:valid-encoding] valid_address_size(encoding.address_size)'], ensures=[
+        '[C07:new-state] res.sp_phase() == Phase::Start(None) && res.sp_stack().len() == 0 && res.sp_result().len() == 0 && res.sp_calls().len() == 0 && res.sp_value_result() is None',
+        '[C07:new-no-limit] res.sp_iteration() == 0 && res.sp_max_iterations() is None && res.sp_object_address() is None',
+        '[C07:addr-mask] res.sp_addr_mask() == ones(encoding.address_size) && res.sp_encoding() == encoding',
+        '[C10:view] res.sp_pc() == bytecode.rv() && res.sp_bytecode() == bytecode.rv()', 'res.sp_wf()'],
+        before=[('Evaluation {', 'proof { assert((1u64 << 8u64) - 1 == 0xffu64) by (bit_vector); assert((1u64 << 16u64) - 1 == 0xffffu64) by (bit_vector); assert((1u64 << 32u64) - 1 == 0xffff_ffffu64) by (bit_vector); assert(!0u64 == 0xffff_ffff_ffff_ffffu64) by (bit_vector); }')],
+        canary=True)
+    ev.splice('set_initial_value', requires=['[C07:set-initial-value-protocol] old(self).sp_phase() == Phase::Start(None)'],
+              ensures=['[C07:set-initial-value] final(self).sp_phase() == Phase::Start(Some(value))', 'final(self).sp_only_state_changed(old(self))'], canary=True)
+    SETFRAME = ['final(self).sp_phase() == old(self).sp_phase()', 'final(self).sp_stack() == old(self).sp_stack()', 'final(self).sp_iteration() == old(self).sp_iteration()',
+                'old(self).sp_wf() ==> final(self).sp_wf()']
+    ev.splice('set_object_address', ensures=['[C07:set-object-address] final(self).sp_object_address() == Some(value)'] + SETFRAME +
+              ['final(self).sp_max_iterations() == old(self).sp_max_iterations()'])
+    ev.splice('set_max_iterations', ensures=['[C01:set-max-iterations][C07:set-max-iterations] final(self).sp_max_iterations() == Some(value)'] + SETFRAME +
+              ['final(self).sp_object_address() == old(self).sp_object_address()'])
+    ev.splice('value_result', ret='res', requires=['[C07:result-protocol] self.sp_phase() is Complete'], ensures=['[C07:value-result] res == self.sp_value_result()'], canary=True)
+    ev.splice('as_result', ret='res', requires=['[C07:result-protocol] self.sp_phase() is Complete'], ensures=['[C07:as-result] res@ == self.sp_result()'], canary=True)
+
+    EOE_INV = ('({ let k = %s.expression_stack@.len() as int; k <= old(self).expression_stack@.len() && %s.expression_stack@ =~= old(self).expression_stack@.take(k) '
+               '&& (k < old(self).expression_stack@.len() ==> %s.pc == old(self).expression_stack@[k].0 && %s.bytecode == old(self).expression_stack@[k].1) '
+               '&& (k == old(self).expression_stack@.len() ==> %s.pc == old(self).pc && %s.bytecode == old(self).bytecode) && (k < old(self).expression_stack@.len() ==> old(self).pc.rv().len == 0) })')
+    ev.splice('end_of_expression', ret='res', requires=['wf(*old(self))'], ensures=[
+        'wf(*final(self))', 'frame_eoe(*old(self), *final(self))',
+        '[C07:end-of-expression] res <==> final(self).pc.rv().len == 0',
+        '[C07:end-of-expression] res ==> final(self).expression_stack@.len() == 0',
+        '[C07:end-of-expression] old(self).pc.rv().len > 0 ==> final(self).pc == old(self).pc && final(self).bytecode == old(self).bytecode && final(self).expression_stack@ == old(self).expression_stack@',
+        # DW_OP_call*: a finished callee returns to the saved (pc, bytecode) of its caller, innermost first
+        '[C07:call-return] ' + EOE_INV % (('final(self)',) * 6)],
+        loops={0: 'invariant wf(*self), frame_eoe(*old(self), *self), ' + EOE_INV % (('self',) * 6) + ',\n decreases self.expression_stack@.len()'})
+
+    E_POST = [
+        '[C07:eval-wf] final(self).sp_wf() && final(self).sp_config_same(old(self))',
+        '[C07:eval-complete] res matches Ok(EvaluationResult::Complete) && !(old(self).sp_phase() is Complete) ==> final(self).sp_phase() is Complete && final(self).sp_result().len() >= 1 && final(self).sp_pc().len == 0 && final(self).sp_calls().len() == 0',
+        '[C07:eval-suspend] res matches Ok(r) ==> r is Complete || final(self).sp_waiting_for(r)',
+        '[C01:iteration-limit][C07:iteration-limit] budget_bound(old(self).sp_iteration(), old(self).sp_max_iterations(), final(self).sp_iteration())',
+        '[C01:iteration-limit][C07:iteration-limit] res is Ok ==> (old(self).sp_max_iterations() matches Some(m) ==> final(self).sp_iteration() <= m || final(self).sp_iteration() == old(self).sp_iteration())',
+        '[C01:iteration-monotone] final(self).sp_iteration() >= old(self).sp_iteration()',
+    ]
+    PUSH_NONE = ('                                size_in_bits: None,\n                                bit_offset: None,\n                                location,\n                            })\n'
+                 '                            .map_err(|_verif_unused| -> (e: Error) ensures e == Error::StackFull { Error::StackFull })?;')
+    PUSH_SOME = ('                                        size_in_bits: Some(size_in_bits),\n                                        bit_offset,\n                                        location,\n                                    })\n'
+                 '                                    .map_err(|_verif_unused| -> (e: Error) ensures e == Error::StackFull { Error::StackFull })?;')
+    ev.splice('evaluate_internal', ret='res', requires=['wf(*old(self))'],
+              attrs='#[verifier::exec_allows_no_decreases_clause]',
+              ensures=E_POST + ['res is Err ==> final(self).state == old(self).state',
+                                '[C07:eval-value-result] res is Ok && final(self).value_result != old(self).value_result ==> (final(self).value_result matches Some(v) && '
+                                '(value_to_u64(v, old(self).addr_mask) matches Ok(addr) && final(self).result@.last() == Piece::<R, usize> { size_in_bits: None, bit_offset: None, location: Location::Address { address: addr } }))'],
+              loops={0: 'invariant wf(*self), config_same(*old(self), *self), self.state == old(self).state, self.value_result == old(self).value_result, self.iteration >= old(self).iteration, '
+                        '(self.max_iterations matches Some(m) ==> self.iteration <= (if old(self).iteration > m { old(self).iteration } else { m })), owed == 0'},
+              before=[('while !self.end_of_expression()', 'let ghost mut owed: int = 0;'),
+                      ('self.iteration += 1;', 'assert(self.max_iterations matches Some(m) && m < u32::MAX && old(self).iteration <= m ==> self.iteration < u32::MAX); // [C01:iteration-counter-no-overflow-with-limit]')],
+              after=[('OperationEvaluationResult::Complete { location } => {', 'proof { owed = 1; } // a completed location description must become a piece (or an error)'),
+                     (PUSH_NONE, 'proof { owed = 0; }\nassert(self.result@.last() == Piece::<R, usize> { size_in_bits: None, bit_offset: None, location }); // [C07:complete-location-whole-object]'),
+                     (PUSH_SOME, 'proof { owed = 0; }\nassert(self.result@.last().location == location); // [C07:complete-location-piece]')])
+    PROTO = '[C07:resume-protocol] old(self).sp_wf() && (old(self).sp_phase() is Failed || %s)'
+    ERRST = '[C07:error-state-sticky] old(self).sp_phase() matches Phase::Failed(e) ==> res == Err::<EvaluationResult<R>, Error>(e)'
+    GEN_PUSH = 'assert(self.stack@ == old(self).stack@.push(Value::Generic(%s))); // [C07:resume-pushes-answer]'
+    ev.splice('evaluate', ret='res', requires=['[C07:evaluate-protocol] old(self).sp_wf() && !old(self).sp_phase().waiting()'],
+              ensures=E_POST + [ERRST, '[C07:evaluate-complete-idempotent] old(self).sp_phase() is Complete ==> res == Ok::<EvaluationResult<R>, Error>(EvaluationResult::Complete)',
+                                '[C07:error-state-sticky] res matches Err(e) ==> final(self).sp_phase() == Phase::Failed(e) || (old(self).sp_phase() is Start && final(self).sp_same_phase(old(self)))'],
+              after=[('self.push(Value::Generic(value))?;', 'assert(self.stack@ == old(self).stack@.push(Value::Generic(value))); // [C07:initial-value-pushed]')], canary=True)
+    for name, wait, anchor, ghost_before, ghost_after in [
+        ('resume_with_memory', 'old(self).sp_phase() is WaitMemory', 'self.push(value)?;', None, 'assert(self.stack@ == old(self).stack@.push(value)); // [C07:resume-pushes-answer]'),
+        ('resume_with_register', 'old(self).sp_phase() is WaitRegister', 'self.push(value)?;', 'let ghost answer = value;',
+         'assert(old(self).state matches EvaluationState::Waiting(EvaluationWaiting::Register { offset: off }) && (value_from_u64(value_type_of(answer), off as u64) matches Ok(o) && '
+         '(value_add(answer, o, self.addr_mask) matches Ok(v) && self.stack@ == old(self).stack@.push(v)))); // [C07:resume-register-adds-offset]'),
+        ('resume_with_wasm_value', 'old(self).sp_phase() is WaitWasmValue', 'self.push(value)?;', None, 'assert(self.stack@ == old(self).stack@.push(value)); // [C07:resume-pushes-answer]'),
+        ('resume_with_frame_base', 'old(self).sp_phase() is WaitFrameBase', 'self.push(Value::Generic(frame_base.wrapping_add(offset as u64)))?;', None,
+         'assert(self.stack@.len() == old(self).stack@.len() + 1 && self.stack@.drop_last() == old(self).stack@ && (self.stack@.last() matches Value::Generic(x) && ({ let t = frame_base as int + offset as int; x as int == t || x as int == t - 0x1_0000_0000_0000_0000 || x as int == t + 0x1_0000_0000_0000_0000 }))); // [C07:resume-frame-base-adds-offset]'),
+        ('resume_with_tls', 'old(self).sp_phase() is WaitTls', 'self.push(Value::Generic(value))?;', None, GEN_PUSH % 'value'),
+        ('resume_with_call_frame_cfa', 'old(self).sp_phase() is WaitCfa', 'self.push(Value::Generic(cfa))?;', None, GEN_PUSH % 'cfa'),
+        ('resume_with_entry_value', 'old(self).sp_phase() is WaitEntryValue', 'self.push(entry_value)?;', None, 'assert(self.stack@ == old(self).stack@.push(entry_value)); // [C07:resume-pushes-answer]'),
+        ('resume_with_parameter_ref', 'old(self).sp_phase() is WaitParameterRef', 'self.push(Value::Generic(parameter_value))?;', None, GEN_PUSH % 'parameter_value'),
+        ('resume_with_relocated_address', 'old(self).sp_phase() is WaitRelocatedAddress', 'self.push(Value::Generic(address))?;', None, GEN_PUSH % 'address'),
+        ('resume_with_indexed_address', 'old(self).sp_phase() is WaitIndexedAddress', 'self.push(Value::Generic(address))?;', None, GEN_PUSH % 'address'),
+    ]:
+        bef = [('match self.state {', ghost_before)] if ghost_before else []
+        if name == 'resume_with_frame_base':
+            bef.append((anchor, 'proof { assert(offset >= 0 ==> (offset as u64) as int == offset as int) by (bit_vector); assert(offset < 0 ==> (offset as u64) as int == offset as int + 0x1_0000_0000_0000_0000) by (bit_vector); }'))
+        ev.splice(name, ret='res', requires=[PROTO % wait], ensures=E_POST + [ERRST], before=bef, after=[(anchor, ghost_after)], canary=True)
+    ev.splice('resume_with_at_location', ret='res', requires=[PROTO % 'old(self).sp_phase() is WaitAtLocation'], ensures=E_POST + [ERRST],
+              before=[('match self.state {', 'let ghost callee = bytes.rv();')],
+              after=[('.map_err(|_verif_unused| -> (e: Error) ensures e == Error::StackFull { Error::StackFull })?;',
+                      'assert(self.pc.rv() == callee && self.bytecode.rv() == callee && self.expression_stack@.len() == old(self).expression_stack@.len() + 1 && self.expression_stack@.last().0 == old(self).pc && self.expression_stack@.last().1 == old(self).bytecode && self.stack@ == old(self).stack@); // [C07:resume-call-enters-callee]')],
+              canary=True)
+    ev.splice('resume_with_base_type', ret='res', requires=[PROTO % '(old(self).sp_phase() is WaitTypedLiteral || old(self).sp_phase() is WaitConvert || old(self).sp_phase() is WaitReinterpret)'], ensures=E_POST + [ERRST],
+              after=[('self.push(value)?;', 'assert(match old(self).state { EvaluationState::Waiting(EvaluationWaiting::TypedLiteral { value: lit }) => value_parse(base_type, lit.rv()) == Ok::<Value, Error>(value) && self.stack@ == old(self).stack@.push(value), '
+                      'EvaluationState::Waiting(EvaluationWaiting::Convert) => old(self).stack@.len() >= 1 && value_convert(old(self).stack@.last(), base_type, self.addr_mask) == Ok::<Value, Error>(value) && self.stack@ =~= old(self).stack@.drop_last().push(value), '
+                      'EvaluationState::Waiting(EvaluationWaiting::Reinterpret) => old(self).stack@.len() >= 1 && value_reinterpret(old(self).stack@.last(), base_type, self.addr_mask) == Ok::<Value, Error>(value) && self.stack@ =~= old(self).stack@.drop_last().push(value), '
+                      '_ => false }); // [C07:resume-base-type]')], canary=True)
     sk.add('read::op', ev)
     sk.add('read::op', core.rd('specs/op_eval.rs'), label='op-eval-spec')
     sk.add('read::op', '// ---- generated from the table STEP (vx/batches/op_eval.py)\n' + step_fns, label='op-eval-step-spec')
